@@ -76,7 +76,7 @@ func TestC19(t *testing.T) {
 		floatFns := fnsFor("ReadFloat64", "DecodeFloat64")
 		intFns := fnsFor("ReadInt64", "ReadUint64", "ReadInt32", "ReadUint32", "ReadInt", "ReadUint", "DecodeInt64", "DecodeUint64", "DecodeInt32", "DecodeUint32", "DecodeInt", "DecodeUint", "ReadFloat64")
 		docFns := fnsFor("SkipValue", "SkipValueFast", "Valid", "HandleArrayValues", "HandleObjectValues", "NextToken", "NextTokenType", "HandleArrayValues/recursive", "HandleObjectValues/recursive")
-		strFns := fnsFor("ReadStringBytes", "SkipValue", "Valid")
+		strFns := fnsFor("ReadStringBytes", "SkipValue", "Valid", "ReadStringBytes/arena")
 		allDecode := fnsFor("DecodeFloat64", "DecodeInt64", "DecodeUint64", "DecodeInt32", "DecodeUint32", "DecodeInt", "DecodeUint", "DecodeBool")
 
 		// 1. fixed pool: literals, null through every numeric/boolean Decode (a successful call)
@@ -224,7 +224,7 @@ func TestC19(t *testing.T) {
 		e.rapidStage("strings", "rapid", e.cfg.N(4000, 400000), func(rt *rapid.T) {
 			content := gen.StrContent(rt, rapid.IntRange(0, 30).Draw(rt, "pieces"))
 			tok := append(append([]byte{'"'}, content...), '"')
-			ok := add("string", c19FuncIndex("UnescapeStringContent"), content)
+			ok := add("string", c19FuncIndex("UnescapeStringContent"), content) && add("string", c19FuncIndex("UnescapeStringContent/arena"), content)
 			for _, fn := range strFns {
 				ok = ok && add("string", fn, tok)
 			}
